@@ -665,15 +665,25 @@ def describe(tier):
     g = GRIDS[tier]
     return dict(
         rule="full product of FFT grids rfftfreq(n, dt) x 7 operators x 3 bandwidths (+2 even "
-             "Savitzky-Golay point counts that must be refused) = roots; under each root 6 "
+             "Savitzky-Golay point counts that must be refused) = single-grid roots; under each root 6 "
              "centre-frequency vectors (every bin incl. 0 Hz, every midpoint, 0.3/0.7 points, "
              "edge set {0, below first bin, last bin, above last, 2x last, two negative}, a single "
              "centre, everything reversed) x {compiled, interpreted}; every call smooths all unit "
              "impulses + 7 further non-negative rows, and is repeated on 5-6 sub-stacks / row orders "
-             "and (compiled) on every row alone; a case (op, grid, bandwidth, vector) is non-trivial "
-             "if at least one centre averages >= 2 samples",
+             "and (compiled) on every row alone.  Spectrum-dtype family: under every such case a stack "
+             "of 7 non-negative integer-valued rows (3 impulses, constant, ramp, 2 irregular; all values "
+             "and their doubles exact in every dtype) is smoothed as float64 (must equal the "
+             "superposition of the impulse responses), as int64, int32 and float32 (must equal the "
+             "float64 result) and doubled in each of the 4 dtypes (must equal twice the result).  "
+             "Grid-sequence roots: for every listed pair of grids with equal bin count and 0 Hz first "
+             "bin but different spacing (same n / other dt; n and n+1), both orders x 7 operators x all "
+             "bandwidth indices: the complete oracle above is run for the first grid and then, in the "
+             "same process, for the second.  A case (op, grid, bandwidth, vector[, sequence, leg]) is "
+             "non-trivial if at least one centre averages >= 2 samples",
         bounds=dict(grids=[list(x) for x in g], operators=len(OPS), bandwidths_per_operator=3,
-                    fc_vectors=len(VECTOR_NAMES), spectrum_rows="n//2+1 impulses + 7"),
+                    fc_vectors=len(VECTOR_NAMES), spectrum_rows="n//2+1 impulses + 7",
+                    spectrum_dtypes=["float64"] + list(DTYPES), integer_rows=7,
+                    grid_sequences=SEQUENCES[tier], grids_per_sequence=2),
         exhaustive=True,
         assumptions=[
             "supports are pinned to DESIGN C02: KO |log10 f/fc| <= 3/b, Parzen |f-fc| <= sqrt(6)a/b, "
@@ -685,4 +695,14 @@ def describe(tier):
             "weights are compared with rtol 1e-9 plus 1e-13 absolute on row-normalised weights; "
             "compiled vs interpreted with rtol 1e-12 plus 1e-15 absolute",
             "row independence is judged bit for bit (same code path, element-wise arithmetic per row)",
+            "a spectrum is the array of its values: an integer-valued non-negative spectrum stored as "
+            "int64, int32 or float32 must give the float64 result to rtol 1e-12 (the dtype of the returned "
+            "array itself is not judged); only C-contiguous 2-D spectra and float64 frequencies / centre "
+            "frequencies are passed; values stay below 2**12 so no integer overflow is provoked",
+            "hidden state between calls is explored for sequences of exactly two grids inside one root; "
+            "warm() smooths rfftfreq(8, 0.01) once in the parent before the workers fork, and a worker "
+            "process may have explored other roots before, so a sequence root is 'these two grids in this "
+            "order after an arbitrary earlier history' - on a stateless module the history is irrelevant; "
+            "state keyed by (bin count, first bin) cannot be right for both legs whatever came before; "
+            "state that needs three or more grids, or another key collision, is outside the bound",
         ])
